@@ -717,7 +717,12 @@ class RZILTransformer(Transformer):
             # A local variable is read again, because the source might change
             # its value with the assignment (a = b = b + 1).
             inner: Assignment = items[2]
-            src = inner.dest if isinstance(inner.dest, LocalVar) else inner.src
+            reread = isinstance(inner.dest, LocalVar) or (
+                # Rx, Ry, Rz are read freshly after they were written.
+                isinstance(inner.dest, Register)
+                and inner.dest.isa_id in ["x", "y", "z"]
+            )
+            src = inner.dest if reread else inner.src
         else:
             src: Pure = items[2]
         name = f"op_{op_type.name}"
